@@ -77,7 +77,7 @@ package framework
 // ---- statement.go: the undo log ------------------------------------------------------------------
 // Well-formed log: only the four in-repo entry kinds, and an undo entry points strictly backwards
 // (DESIGN C13: "log invariant undo@j => target < j"; it is what makes operationValid terminate).
-//@ define wfKnown(s *Statement) bool = (len(s.operations) > 0 ==> knownOp(s.operations[0])) && forall j int :: 0 <= j && j < len(s.operations) ==> knownOp(s.operations[j])
+//@ define wfKnown(s *Statement) bool = forall j int :: 0 <= j && j < len(s.operations) ==> knownOp(s.operations[j])
 //@ define wfRev(s *Statement) bool = forall j int :: 0 <= j && j < len(s.operations) ==> revFn(s.operations[j]) != nil
 //@ define wfBack(s *Statement) bool = forall j int :: 0 <= j && j < len(s.operations) && isUndoOp(s.operations[j]) ==> 0 <= undoTarget(s.operations[j]) && undoTarget(s.operations[j]) < j
 //@ define wfLog(s *Statement) bool = wfKnown(s) && wfRev(s) && wfBack(s)
@@ -246,4 +246,63 @@ package framework
 //@   ensures [logEmpty] len(s.operations) == 0
 //@   ensures [atMostOncePerEntry] reversals() - old(reversals()) <= old(len(s.operations))
 //@   ensures [emptyIsNoop] old(len(s.operations)) == 0 ==> reversals() == old(reversals())
+//@ end
+
+// ---- session_plugins.go: victim filters / scenario validators (C06) ----------------------------
+// C06: "never evict pods of non-preemptible workloads, nor of workloads still inside the minimum
+// runtime ...": the session-level verdict is the conjunction of EVERY registered plugin verdict
+// (api.victimFilterHolds(f, actor, victim) is the abstract verdict of plugin function f).
+//@ define reclaimVictimOK(ssn *Session, actor *podgroup_info.PodGroupInfo, victim *podgroup_info.PodGroupInfo) bool = forall i int :: 0 <= i && i < len(ssn.ReclaimVictimFilterFns) ==> api.victimFilterHolds(ssn.ReclaimVictimFilterFns[i], actor, victim)
+//@ define preemptVictimOK(ssn *Session, actor *podgroup_info.PodGroupInfo, victim *podgroup_info.PodGroupInfo) bool = forall i int :: 0 <= i && i < len(ssn.PreemptVictimFilterFns) ==> api.victimFilterHolds(ssn.PreemptVictimFilterFns[i], actor, victim)
+//@ define reclaimScenarioOK(ssn *Session, scenario api.ScenarioInfo) bool = forall i int :: 0 <= i && i < len(ssn.ReclaimScenarioValidatorFns) ==> api.scenarioValid(ssn.ReclaimScenarioValidatorFns[i], scenario)
+//@ define preemptScenarioOK(ssn *Session, scenario api.ScenarioInfo) bool = forall i int :: 0 <= i && i < len(ssn.PreemptScenarioValidatorFns) ==> api.scenarioValid(ssn.PreemptScenarioValidatorFns[i], scenario)
+
+//@ func (*Session).ReclaimVictimFilter
+//@   props C06 C05
+//@   requires ssn != nil
+//@   requires forall i int :: 0 <= i && i < len(ssn.ReclaimVictimFilterFns) ==> ssn.ReclaimVictimFilterFns[i] != nil
+//@   pure
+//@   loop 1
+//@     invariant 0 - 1 <= rangeindex && rangeindex < len(ssn.ReclaimVictimFilterFns)
+//@     invariant forall i int :: 0 <= i && i <= rangeindex ==> api.victimFilterHolds(ssn.ReclaimVictimFilterFns[i], reclaimer, victim)
+//@     decreases len(ssn.ReclaimVictimFilterFns) - rangeindex
+//@   ensures result == reclaimVictimOK(ssn, reclaimer, victim)
+//@   ensures [noFilters] len(ssn.ReclaimVictimFilterFns) == 0 ==> result
+//@ end
+
+//@ func (*Session).PreemptVictimFilter
+//@   props C06 C05
+//@   requires ssn != nil
+//@   requires forall i int :: 0 <= i && i < len(ssn.PreemptVictimFilterFns) ==> ssn.PreemptVictimFilterFns[i] != nil
+//@   pure
+//@   loop 1
+//@     invariant 0 - 1 <= rangeindex && rangeindex < len(ssn.PreemptVictimFilterFns)
+//@     invariant forall i int :: 0 <= i && i <= rangeindex ==> api.victimFilterHolds(ssn.PreemptVictimFilterFns[i], preemptor, victim)
+//@     decreases len(ssn.PreemptVictimFilterFns) - rangeindex
+//@   ensures result == preemptVictimOK(ssn, preemptor, victim)
+//@   ensures [noFilters] len(ssn.PreemptVictimFilterFns) == 0 ==> result
+//@ end
+
+//@ func (*Session).ReclaimScenarioValidatorFn
+//@   props C06
+//@   requires ssn != nil
+//@   requires forall i int :: 0 <= i && i < len(ssn.ReclaimScenarioValidatorFns) ==> ssn.ReclaimScenarioValidatorFns[i] != nil
+//@   pure
+//@   loop 1
+//@     invariant 0 - 1 <= rangeindex && rangeindex < len(ssn.ReclaimScenarioValidatorFns)
+//@     invariant forall i int :: 0 <= i && i <= rangeindex ==> api.scenarioValid(ssn.ReclaimScenarioValidatorFns[i], scenario)
+//@     decreases len(ssn.ReclaimScenarioValidatorFns) - rangeindex
+//@   ensures result == reclaimScenarioOK(ssn, scenario)
+//@ end
+
+//@ func (*Session).PreemptScenarioValidator
+//@   props C06
+//@   requires ssn != nil
+//@   requires forall i int :: 0 <= i && i < len(ssn.PreemptScenarioValidatorFns) ==> ssn.PreemptScenarioValidatorFns[i] != nil
+//@   pure
+//@   loop 1
+//@     invariant 0 - 1 <= rangeindex && rangeindex < len(ssn.PreemptScenarioValidatorFns)
+//@     invariant forall i int :: 0 <= i && i <= rangeindex ==> api.scenarioValid(ssn.PreemptScenarioValidatorFns[i], scenario)
+//@     decreases len(ssn.PreemptScenarioValidatorFns) - rangeindex
+//@   ensures result == preemptScenarioOK(ssn, scenario)
 //@ end
